@@ -363,6 +363,9 @@ generate (uint64_t seed, int tier, const char *property, scenario_t *sc)
 	from = sc->n_ops;
 	gen_bits (&p, 0, rng_chance (&r, 2, 3) ? FC_FASTPATH : FC_ANY, 64, 8, 0x9);
 	gen_bits (&p, 1, FC_ALPHA, 32, 8, 0x9);
+	/* a destination clip of several boxes: the composite region then has more boxes than a
+	 * shared source's clip, which is when the two are combined the other way round */
+	if (rng_chance (&r, 1, 3)) gen_clip (&p, 0, 0);
 	gen_source (&p, 2, FC_ANY, 24);
 	for (q = 0; q < n_ops; q++)
 	{
